@@ -186,6 +186,10 @@ def judge(ctx, graphs, label):
         if lf.get("LINKED") != "same" or lf.get("STARTUP") != "true":
             ctx.broken.append(f"model:linking/startup depends on the visiting order inside the fragment ({g.family}) {desc['mods']}")
         bad = None
+        if any(progstream.parse_outcome(gf.get(b))["cls"] in ("TERM", "HANG") for b in ("VM", "TREE")):
+            # the harness's own wall-clock guard fired: re-run alone with a generous limit before judging
+            ctx.coverage["rerun_after_timeout"] = ctx.coverage.get("rerun_after_timeout", 0) + 1
+            gf = fields(core.go_lines("modgraph", [mod_line("modgraph", g.sources(), "(asm true) (timeout 60000)")], timeout=300)[0])
         for b in ("VM", "TREE"):
             o = progstream.parse_outcome(gf.get(b))
             if o["cls"] != "OK":
